@@ -58,7 +58,7 @@ def main():
         out = p.stdout.decode("utf-8", "replace")
         viol = [l for l in out.split("\n") if l.startswith("VIOLATION")]
         if p.returncode == 1 and viol:
-            verdict = "DETECTED"
+            verdict = "DETECTED(no-failing-input)" if viol[0].rstrip().endswith("no-failing-input-found") else "DETECTED(failing-input)"
         elif p.returncode == 0:
             verdict = "MISSED"
         else:
